@@ -347,6 +347,9 @@ func slowDown(slow int) {
 
 func (rr *runRec) buildDec(bi int, side string, ord int, d DecSpec) decor.Decorator {
 	wc := decor.WC{W: d.W, C: d.C & 3}
+	if d.Sync {
+		wc.C |= decor.DSyncWidth
+	}
 	var x decor.Decorator
 	var calls int64
 	switch d.Kind {
@@ -385,7 +388,15 @@ func (rr *runRec) buildDec(bi int, side string, ord int, d DecSpec) decor.Decora
 	case "avgeta":
 		x = decor.AverageETA(decor.ET_STYLE_GO, wc)
 	case "avgspeed":
-		x = decor.AverageSpeed(0, "%.1f", wc)
+		x = decor.AverageSpeed(0, "(%.1f)", wc)
+	case "ewmaeta":
+		x = decor.EwmaETA(decor.ET_STYLE_GO, 30, wc)
+	case "ewmaspeed":
+		x = decor.EwmaSpeed(0, "(%.1f)", 30, wc)
+	case "spindec":
+		x = decor.Spinner([]string{"(-)", "(+)", "(|)", "(*)"}, wc)
+	case "emptyname":
+		x = decor.Name("", wc)
 	default: // plain
 		x = decor.Any(func(s decor.Statistics) string {
 			slowDown(d.Slow)
